@@ -1,7 +1,7 @@
 """C01 — cell-integral kernels compute the form's element tensor."""
 import numpy as np
 
-from .. import cjit, corpus, ir_checks, kernels, lean, numeric, pipeline
+from .. import cjit, codegen_checks, corpus, ir_checks, kernels, lean, numeric, pipeline
 
 THEOREMS_C08 = ["Ffcx.LNodes.subscript_in_extent", "Ffcx.LNodes.flatten_inj"]
 THEOREMS_C17 = ["Ffcx.LNodes.global_index_value", "Ffcx.LNodes.float_product_sound"]
@@ -56,7 +56,9 @@ def run(chk):
                 "oracle (UFL lowering with the oracle's own flags + NumPy interpreter + Basix) on random non-degenerate cells and data, "
                 "rel. tol 1e-10; distinct = kernel. Tie: Lean Float execution of every exported AST vs the C kernel.")
     chk.trusted += ["harness/oracle.py; UFL's symbolic lowering and Basix tabulation/quadrature are shared between FFCx and the oracle (taken as given)",
-                    "floating-point rounding: comparisons at rel. tol 1e-10 (float64)"]
+                    "floating-point rounding: comparisons at rel. tol 1e-10 (float64)",
+                    "kernel_meets_spec_partial: the code before the tensor computation (access.py / definitions.py: coefficient and geometry "
+                    "definitions) is assumed to establish the fw defining values (hypothesis hpart); table values = basis functions is C02/C03's subject"]
     chk.assumptions += ["CellOrientation ≡ 1 (FFCx's convention; the UFCx kernel has no argument for it)"]
     chk.lean("FfcxProofs.C08", THEOREMS_C08)
     chk.lean("FfcxProofs.C17", THEOREMS_C17)
@@ -69,6 +71,13 @@ def run(chk):
         ir_checks.check_tables(chk, d, ir_ents, 1e-6, 1e-9)
         ir_checks.check_factorization(chk, d, ir_ents)
         ir_checks.check_factorization_probes(chk, d)
+    # Lean transcription of the block / quadrature-loop / partition generators: exact structural correspondence with the
+    # real generator calls (intercepted), side conditions of genBlock_spec / quadLoop_spec evaluated per real block
+    chk.lean(codegen_checks.CODEGEN_MODULE, codegen_checks.CODEGEN_THEOREMS, extra_files=codegen_checks.CODEGEN_FILES)
+    chk.lean(codegen_checks.PARTITION_MODULE, codegen_checks.PARTITION_THEOREMS, extra_files=codegen_checks.PARTITION_FILES)
+    with lean.Driver("driver_codegen") as d:
+        codegen_checks.check_blocks(chk, d, ir_ents + codegen_checks.extra_entries())
+        codegen_checks.check_synthetic(chk, d, chk.seed, 400 if chk.tier == "quick" else 5000)
     opts = [{}]
     if chk.tier == "thorough":
         opts += [{"scalar_type": "float32"}, {"scalar_type": "complex128"}]
